@@ -360,8 +360,40 @@ MAX_SAMPLES = 100000
 
 def _proxy_classes():
     from msdm.core.distributions.distributions import FiniteDistribution
-    from msdm.core.distributions import DictDistribution
+    from msdm.core.distributions import DictDistribution, DeterministicDistribution, UniformDistribution
     from msdm.algorithms.lrtdp import LRTDPEventListener
+
+    # the planner must see objects of the library's own distribution classes (code may branch on them):
+    # logging / scripted subclasses of each concrete class, the generic proxy only for anything else
+    class DetProxy(DeterministicDistribution):
+        def __init__(self, base, rec, key):
+            DeterministicDistribution.__init__(self, base.value)
+            self.base, self.rec, self.key = base, rec, key
+
+        def sample(self, *, rng=random, k=1):
+            return self.rec.on_sample(self.key, self.base, rng)
+
+    class DictProxy(DictDistribution):
+        def __init__(self, base, rec, key):
+            dict.__init__(self, base)
+            self.base, self.rec, self.key = base, rec, key
+
+        def sample(self, *, rng=random, k=1):
+            return self.rec.on_sample(self.key, self.base, rng)
+
+    class UniProxy(UniformDistribution):
+        def __init__(self, base, rec, key):
+            UniformDistribution.__init__(self, base.support)
+            self.base, self.rec, self.key = base, rec, key
+
+        def sample(self, *, rng=random, k=1):
+            return self.rec.on_sample(self.key, self.base, rng)
+
+    def wrap(base, rec, key):
+        for cls, prox in ((DeterministicDistribution, DetProxy), (DictDistribution, DictProxy), (UniformDistribution, UniProxy)):
+            if type(base) is cls:
+                return prox(base, rec, key)
+        return Dist(base, rec, key)
 
     class Dist(FiniteDistribution):
         """A successor / initial distribution of the wrapped MDP whose sample() is logged or scripted."""
@@ -394,7 +426,7 @@ def _proxy_classes():
         def end_of_lrtdp_timestep(self, localvars):
             pass
 
-    return Dist, DictDistribution, Listener
+    return wrap, DictDistribution, Listener
 
 
 class Relabelled:
@@ -514,18 +546,22 @@ class Recorder:
         return out
 
 
-def real_run(m, rep, *, script=None, seed=0, randomize=False, iterations=3000, listener=True, warm=None):
+def real_run(m, rep, *, script=None, seed=0, randomize=False, iterations=3000, listener=True, warm=None, post=None):
     """Run msdm's LRTDP on the instance; returns a json-able description of everything observable.
 
     warm: an abstract instance the *same planner object* is first run on (free sampling, result discarded):
     planner-reuse histories.  Its labels are of the same kind (so they overlap with the instance's) but its
     absorbing set, dynamics and heuristic are its own; warm = the instance itself plans the same MDP twice.
-    Whatever the planner kept from the first call, the judged run must be that of a fresh planner."""
+    Whatever the planner kept from the first call, the judged run must be that of a fresh planner.
+    post: (instance, "same" | "new"): after the judged call and BEFORE its result is read, one more plan_on call
+    is made on that instance - by the same planner object or by a new one - again with labels of the same kind.
+    A result must not change because somebody plans again."""
     from msdm.algorithms.lrtdp import LRTDP, LRTDPEventListener
     rep = dict(rep)
     if rep["rep"] == "matrices":
         rep["explicit_list"] = True
-    out = {"seed": seed, "randomize": bool(randomize), "rep": rep, "scripted": script is not None, "warm": warm is not None}
+    out = {"seed": seed, "randomize": bool(randomize), "rep": rep, "scripted": script is not None, "warm": warm is not None,
+           "post": post[1] if post is not None else None}
     margin = m["margin"] if "margin" in m else m["EPS"] / 2 ** m["KB"]
     cur = {}
 
@@ -542,7 +578,7 @@ def real_run(m, rep, *, script=None, seed=0, randomize=False, iterations=3000, l
             ad = Relabelled(b_, m["relabel"])
             b_ = build.Built(mdp=ad, m=b_.m, slabel=list(ad.ext), alabel=b_.alabel, rep=b_.rep, explicit_list=b_.explicit_list)
         r_ = Recorder(b_, inst, script=scr)
-        r_.planner = planner
+        r_.planner = cur["planner"]
         cur.update(b=b_, rec=r_, hv=hvals(inst))
         return b_, r_
     try:
@@ -550,6 +586,7 @@ def real_run(m, rep, *, script=None, seed=0, randomize=False, iterations=3000, l
         planner = LRTDP(heuristic=lambda s: cur["hv"][cur["b"].sidx(s)], bellman_error_margin=margin, iterations=iterations,
                         randomize_action_order=randomize, max_trial_length=L,
                         event_listener_class=Listener if listener else None, seed=seed)
+        cur["planner"] = planner
         with warnings.catch_warnings(record=True) as wlist:
             warnings.simplefilter("always")
             if warm is not None:
@@ -558,8 +595,16 @@ def real_run(m, rep, *, script=None, seed=0, randomize=False, iterations=3000, l
             wlist.clear()
             b, rec = enter(m, script)
             res = planner.plan_on(rec)
-        hv = cur["hv"]
-        out["capped"] = any("not converged" in str(w.message) for w in wlist)
+            hv = cur["hv"]
+            out["capped"] = any("not converged" in str(w.message) for w in wlist)
+            if post is not None:
+                if post[1] == "new":
+                    cur["planner"] = LRTDP(heuristic=lambda s: cur["hv"][cur["b"].sidx(s)], bellman_error_margin=margin,
+                                           iterations=max(iterations, 200), randomize_action_order=randomize, max_trial_length=L,
+                                           event_listener_class=Listener if listener else None, seed=seed + 1)
+                b1, rec1 = enter(post[0], None)
+                cur["planner"].plan_on(rec1)
+                cur.update(b=b, rec=rec, hv=hv)       # the heuristic function answers for the judged MDP again
     except ScriptDiverged as e:
         out["status"] = "diverged"
         out["why"] = str(e)
@@ -593,8 +638,19 @@ def real_run(m, rep, *, script=None, seed=0, randomize=False, iterations=3000, l
         if m["abs"][s]:
             res.policy.action_dist(b.slabel[s])      # the returned policy is queried at every state
             continue
-        d = res.policy.action_dist(b.slabel[s])
-        pol[s] = {b.aidx(a): float(p) for a, p in d.items() if p > 0}
+        try:
+            d = res.policy.action_dist(b.slabel[s])
+            items = [(a, float(p)) for a, p in d.items() if p > 0]
+        except Exception as e:                   # noqa: BLE001 - judged: the returned policy cannot be evaluated
+            out.setdefault("pol_broken", {})[s] = f"{type(e).__name__}: {e}"[:200]
+            pol[s] = {}
+            continue
+        pol[s] = {}
+        for a, p in items:
+            if a in b.alabel:
+                pol[s][b.aidx(a)] = p
+            else:                                # not even an action of this MDP
+                out.setdefault("pol_broken", {})[s] = f"plays {a!r}, which is not an action of this MDP"
     out["pol"] = pol
     out["pol_unavailable"] = {s: sorted(a for a in acts if not m["avail"][s][a]) for s, acts in pol.items()
                               if any(not m["avail"][s][a] for a in acts)}
@@ -667,6 +723,10 @@ def judge_run(ctx, m, run, jr, case, *, pyx=False, orc=None, mach=None):
                  f"(of positive probability: {pos_unl})")
         else:
             fail("C04:LRTDP.lrtdp:returned-with-unlabelled-initial-state", f"plan_on returned with initial states {pos_unl} not labelled solved")
+        return False
+    if run.get("pol_broken"):
+        fail("C04:LRTDP.plan_on:returned-policy-cannot-be-evaluated",
+             f"the returned policy is not a policy of the planned MDP: {run['pol_broken']}")
         return False
     if run.get("pol_unavailable"):
         fail("C04:LRTDP.plan_on:returned-policy-plays-unavailable-action",
@@ -903,13 +963,14 @@ def same_final(m, run, rec):
     return None
 
 
-def replay_history(m, rec, rep, warm=None):
+def replay_history(m, rec, rep, warm=None, post=None):
     """Pipeline A: drive the real code through the history of one emitted terminal state (optionally on a
     planner object that has already planned on `warm`)."""
     script = rec["ch"]
     ntr = sum(1 for c in script if c["k"] == 0)
     if not m["rand"]:
-        return real_run(m, rep, script=script, seed=0, iterations=(ntr + 3 if warm is None else max(ntr + 3, 200)), warm=warm)
+        return real_run(m, rep, script=script, seed=0, iterations=(ntr + 3 if warm is None else max(ntr + 3, 200)), warm=warm,
+                        post=post)
     want = rec["ord"]
     last = None
     for seed in range(96):
@@ -967,20 +1028,26 @@ def pipeline_mc(ctx, batch, reps, *, inject=None):
         if not m["rand"] and pick < 5:
             warm = m if pick < 2 else batch[(r["iid"] * 7 + 3) % len(batch)]
             ctx.count("planner_reuse_same_mdp" if warm is m else "planner_reuse_other_mdp")
-        run = replay_history(m, r, rep, warm)
+        # results read late: 2 in 10 replays are followed, before their result is read, by another plan_on call
+        # (same planner object / a new one) on another member of the batch with labels of the same kind
+        post = None
+        if not m["rand"] and pick in (5, 6):
+            post = (batch[(r["iid"] * 5 + 1) % len(batch)], "same" if pick == 5 else "new")
+            ctx.count("result_read_after_a_later_plan_on_call")
+        run = replay_history(m, r, rep, warm, post)
         ctx.evaluations += 1
-        runs.append((m, r, run, rep, warm))
+        runs.append((m, r, run, rep, warm, post))
     if inject is not None:
         inject(runs)
     # judge all real runs with one TLC run
     jrecs = []
-    for k, (m, r, run, rep, warm) in enumerate(runs):
+    for k, (m, r, run, rep, warm, post) in enumerate(runs):
         if run["status"] == "ok" and not run["capped"]:
             jrecs.append(judge_record(m, run, f"j{k}", oracle=0))
     jby = run_tj(ctx, jrecs, "judge: exact evaluation of the policies returned by the replayed runs")
-    for k, (m, r, run, rep, warm) in enumerate(runs):
+    for k, (m, r, run, rep, warm, post) in enumerate(runs):
         case = {"m": m, "rep": rep, "kind": "A", "script": r["ch"], "tag": f"{m['tag']}:{digest(r['ch'])}",
-                "seed": run.get("seed", 0), "warm": warm}
+                "seed": run.get("seed", 0), "warm": warm, "post": list(post) if post else None}
         if run["status"] == "diverged":
             if run.get("seed_search_failed") or m["rand"]:
                 ctx.skip("randomised action order: no seed among 96 reproduces the emitted orders")
@@ -1014,8 +1081,11 @@ def pipeline_free(ctx, cases):
     runs = []
     for k, c in enumerate(cases):
         m = c["m"]
-        run = real_run(m, c["rep"], seed=c["seed"], randomize=c["randomize"], iterations=c["iterations"], warm=c.get("warm"))
+        run = real_run(m, c["rep"], seed=c["seed"], randomize=c["randomize"], iterations=c["iterations"], warm=c.get("warm"),
+                       post=c.get("post"))
         run["iterations"] = c["iterations"]
+        if c.get("post") is not None:
+            ctx.count("result_read_after_a_later_plan_on_call")
         if c.get("warm") is not None:
             ctx.count("planner_reuse_same_mdp" if c["warm"] is m else "planner_reuse_other_mdp")
         ctx.evaluations += 1
@@ -1035,7 +1105,7 @@ def pipeline_free(ctx, cases):
     for k, (c, run) in enumerate(zip(cases, runs)):
         m = c["m"]
         case = {"m": m, "rep": c["rep"], "kind": "B", "seed": c["seed"], "randomize": c["randomize"],
-                "iterations": c["iterations"], "exact": c["exact"], "warm": c.get("warm"),
+                "iterations": c["iterations"], "exact": c["exact"], "warm": c.get("warm"), "post": c.get("post"),
                 "tag": f"free{k}:{digest([m, c['seed']])}"}
         tr = by.get(f"t{k}")
         good = judge_run(ctx, m, run, by.get(f"j{k}"), case, pyx=(k % 7 == 0), orc=tr,
@@ -1145,6 +1215,8 @@ def make_free_cases(rng, n, tier):
         elif x < 0.40:
             o = cases[rng.randrange(len(cases))]["m"]
             c["warm"] = o
+        elif x < 0.60:                                # result read after a later plan_on call on another MDP
+            c["post"] = [cases[rng.randrange(len(cases))]["m"], rng.choice(["same", "new"])]
     return cases
 
 
@@ -1599,10 +1671,10 @@ def replay(ctx, case):
         ntr = sum(1 for c in case["script"] if c["k"] == 0)
         warm = case.get("warm")
         run = real_run(m, case["rep"], script=case["script"], seed=case.get("seed", 0), randomize=bool(m["rand"]),
-                       iterations=(ntr + 3 if warm is None else max(ntr + 3, 200)), warm=warm)
+                       iterations=(ntr + 3 if warm is None else max(ntr + 3, 200)), warm=warm, post=case.get("post"))
     else:
         run = real_run(m, case["rep"], seed=case["seed"], randomize=case["randomize"], iterations=case["iterations"],
-                       warm=case.get("warm"))
+                       warm=case.get("warm"), post=case.get("post"))
         run["iterations"] = case["iterations"]
     ctx.evaluations += 1
     if run["status"] == "diverged":
@@ -1624,7 +1696,7 @@ def selftest(ctx):
     hit = {}
 
     def inject(runs):
-        for (m, r, run, rep, warm) in runs:
+        for (m, r, run, rep, warm, post) in runs:
             if run["status"] == "ok" and r["pc"] == "done" and any(m["p0"][s] > 0 and not m["abs"][s] and s in run["V"] for s in range(m["N"])):
                 s = next(s for s in range(m["N"]) if m["p0"][s] > 0 and not m["abs"][s] and s in run["V"])
                 run["V"][s] += 8.0
